@@ -334,21 +334,6 @@ example : ruleOk { witnessRule with origins := [sPctOrigin], creds := true, meth
 
 /-! ### hot reloads -/
 
-theorem foldl_update (cs : List Conf) (t : List (Str × List Rule)) :
-    cs.foldl update t = match cs.reverse.find? confOk with
-      | some c => c.products
-      | none => t := by
-  induction cs generalizing t with
-  | nil => rfl
-  | cons c cs ih =>
-    simp only [List.foldl_cons, List.reverse_cons, List.find?_append]
-    rw [ih]
-    cases hf : cs.reverse.find? confOk with
-    | some c' => rfl
-    | none =>
-      simp only [Option.none_or, List.find?_cons, List.find?_nil, update]
-      cases hc : confOk c <;> simp
-
 /-- **C52_reload_in_force**: whatever the history of reloads (accepted and rejected configurations, same or
     different version strings, products added / removed / changed), the rules the handlers see for a product
     are exactly those of the LAST ACCEPTED configuration; nothing of an earlier configuration survives. -/
